@@ -75,7 +75,14 @@ class AccessMixin:
         cls = obj.ty.args[0].name
         info = self.field_info(cls, field)
         if info is None:
-            raise Unsupported(f"write to unmodelled field {cls}.{field}")
+            fresh = obj.t.sexpr() in getattr(ctx, "fresh_refs", set())
+            if fresh:
+                return          # an attribute of an object allocated by this call that no clause can see
+            # an attribute outside the class model written on an entry object: no clause can read it, but it IS state kept on the object
+            ctx.unmodelled_writes = getattr(ctx, "unmodelled_writes", []) + [(f"{cls}.{field}", field, obj.t)]
+            if ctx.contract.ghost.get("no_frame"):
+                raise Unsupported(f"write to unmodelled field {cls}.{field}")
+            return              # judged by the frame obligation at exit (it is outside `modifies` unless listed there)
         key, ty = info
         if ty == OPQ:
             self.note_field_write(obj, key)
@@ -586,9 +593,10 @@ class AccessMixin:
                 return self.engine.pyvalue(cc[attr])      # class-level constant read through the instance
             kind = self.real_member_kind(v, attr)
             if kind in ("property", "data"):
-                # a data attribute / property of the real class that the class model does not list: its value is unknown to the
-                # encoding (treating it as a bound method would make `not obj.attr` silently False)
-                raise Unsupported(f"attribute {v.ty.args[0].name}.{attr} is not in the class model")
+                # a data attribute / property of the real class that the class model does not list: its value is UNKNOWN to the encoding
+                # (treating it as a bound method would make `not obj.attr` silently False); tests on it fork both ways
+                self.engine.note_assumption(f"{v.ty.args[0].name}.{attr} is outside the class model: read as an unknown value")
+                return Opaque(f"{v.ty.args[0].name}.{attr}")
             return BoundMethod(v, attr)
         if is_str(v) or isinstance(v, (Cell, tuple)) or type(v).__name__ == "DictView":
             return BoundMethod(v, attr)
@@ -623,6 +631,8 @@ class AccessMixin:
             seen.add(c)
             hit = self.engine.index.find_class(c)
             if not hit:
+                if c in ("object", "ABC", "Enum", "Exception", "ValueError", "dict", "list"):
+                    continue         # standard bases define none of the repository's attributes
                 return None          # a base class outside the repository: unknown
             rel, node = hit
             for st in node.body:
